@@ -32,7 +32,9 @@ class LiteSessionStore(SessionStore):
         return deviceIds
 
     def storeSession(self, recipientId, deviceId, sessionRecord):
-        self.deleteSession(recipientId, deviceId)
+        # delete and insert in ONE transaction: a crash in between must not lose the existing session
+        q = "DELETE FROM sessions WHERE recipient_id = ? AND device_id = ?"
+        self.dbConn.cursor().execute(q, (recipientId, deviceId))
 
         q = "INSERT INTO sessions(recipient_id, device_id, record) VALUES(?,?,?)"
         c = self.dbConn.cursor()
